@@ -71,6 +71,18 @@ var populatedTriples = []string{
 	`/u<mary>	"parent_of"@[]	/u<peter>`,
 	`/u<joe>	"bought"@[2016-01-01T00:00:00-08:00]	/c<mini>`,
 	`/u<joe>	"age"@[]	"31"^^type:int64`,
+	// one binding, many literal types (the aggregation picks its accumulator from the first solution only)
+	`/u<m>	"score"@[]	"1"^^type:int64`,
+	`/u<m>	"score"@[]	"2.5"^^type:float64`,
+	`/u<m>	"score"@[]	"x"^^type:text`,
+	`/u<m>	"score"@[]	"true"^^type:bool`,
+	`/u<m>	"score"@[]	"[1 2]"^^type:blob`,
+	`/u<m>	"score"@[]	/u<b>`,
+	`/u<m>	"score"@[]	"p"@[]`,
+	`/u<f>	"score"@[]	"0.5"^^type:float64`,
+	`/u<f>	"score"@[]	"7"^^type:int64`,
+	`/u<i>	"score"@[]	"9223372036854775807"^^type:int64`,
+	`/u<i>	"score"@[]	"1"^^type:int64`,
 }
 
 func newStore(kind string, c *tcase) storage.Store {
@@ -398,6 +410,19 @@ func templates() []string {
 				out = append(out, fmt.Sprintf(`select ?s, count(?x) as ?n from ?a where {?s ?pp ?x} group by ?s%s%s limit %s;`, ord, hav, lim))
 				out = append(out, fmt.Sprintf(`select ?s, ?x as ?n from ?a where {/u<nobody> "none"@[] ?s . ?s ?pp ?x}%s%s limit %s;`, ord, hav, lim))
 			}
+		}
+	}
+	// aggregates over a binding whose values have several kinds and literal types, and over int64 values at the boundary
+	for _, agg := range []string{`sum(?o)`, `count(?o)`, `count(distinct ?o)`, `sum(?o) as ?u, count(?o)`} {
+		for _, shape := range []string{
+			`select ?s, %s as ?t from ?a where {?s "score"@[] ?o} group by ?s;`,
+			`select %s as ?t from ?a where {?s "score"@[] ?o};`,
+			`select ?s, %s as ?t from ?a where {?s "score"@[] ?o} group by ?s order by ?t desc limit "2"^^type:int64;`,
+			`select ?s, %s as ?t from ?a where {?s "score"@[] ?o} group by ?s having ?t > "1"^^type:int64;`,
+			`select ?s, %s as ?t from ?a where {?s ?p ?o} group by ?s;`,
+			`select ?p, %s as ?t from ?a where {?s ?p ?o . optional {?o "score"@[] ?z}} group by ?p;`,
+		} {
+			out = append(out, fmt.Sprintf(shape, agg))
 		}
 	}
 	// every driver lookup shape (subject / predicate / object each given or free) with boundary limits, with and without the
